@@ -169,6 +169,8 @@ def c01_phases(ctx):
         tall += [("sha256_n24", [(2, 10), (4, 5)], [31, 32, 32767]), ("shake256_n32", [(4, 10), (4, 10)], [1023, 1024])]
     for alg, params, ctrs in tall:
         groups.append(walk_group("c01/%s/tall-%s" % (alg, "x".join(str(h) for _, h in params)), alg, params, ctrs, [100], light=True))
+    # released signatures verify also when an aux buffer is involved, whatever happened to it before (scripted histories of HssAux)
+    groups += aux_script_groups(ctx, "c01/auxhist", (4, 5, 7), False)
     return [{"tag": "c01", "groups": groups, "space": "complete lifetimes of H2 stacks, roll-over counters of H2/H5/H10 mixes, 1..8 levels"}]
 
 
@@ -462,8 +464,35 @@ def sym_design(ctx):
     return runs
 
 
+def relabel_groups(ctx):
+    """ALL type codes of a valid triple rewritten consistently (signature and public key) to code points RFC 8554 does not
+    define (e.g. the SP 800-208 registrations for other hashes): RFC 8554 verification rejects them"""
+    groups = []
+    for alg in (ALGS if ctx["tier"] != "quick" else ("sha256_n24", "shake256_n32", "shake256_n16")):
+        n = N_OF[alg]
+        for w in ((8, 2) if ctx["tier"] == "quick" else (8, 4, 2, 1)):
+            name = "c02/relabel/%s/w%d" % (alg, w)
+            nu = 8 * n // w
+            p = nu + -(-((nu * ((1 << w) - 1)).bit_length()) // w)
+            cmds = [cmd_keygen(alg, [(w, 5)], seed_hex(name, alg)),
+                    cmd_sign(alg, key_at("sk", 9), "7e1abe10", out={"sig": "sig"}, light=True),
+                    cmd_verify(alg, "7e1abe10", slot("sig"), slot("pk"), meta={"class": "valid"})]
+            ots_t = {1: 1, 2: 2, 4: 3, 8: 4}[w]
+            sig_ots, sig_lms = 8, 4 + 4 + 4 + n + n * p          # offsets of the two type codes in a one-level signature
+            for dots in (0, 4, 8, 12, 16):
+                for dlms in (0, 5, 10, 15, 20):
+                    if dots == 0 and dlms == 0:
+                        continue
+                    S = {"mut": {"mut": slot("sig"), "kind": "set", "off": sig_ots, "with": "%08x" % (ots_t + dots)}, "kind": "set", "off": sig_lms, "with": "%08x" % (5 + dlms)}
+                    P = {"mut": {"mut": slot("pk"), "kind": "set", "off": 4, "with": "%08x" % (5 + dlms)}, "kind": "set", "off": 8, "with": "%08x" % (ots_t + dots)}
+                    cmds.append(cmd_verify(alg, "7e1abe10", S, P, meta={"class": "type_codes_relabelled_consistently", "dots": dots, "dlms": dlms}))
+            groups.append({"name": name, "cmds": cmds, "cost": 1.5})
+    return groups
+
+
 def c02_phases(ctx):
     groups = mutation_groups(ctx, "c02")
+    groups += relabel_groups(ctx)
     groups += sym_groups(ctx)
     if ctx["tier"] != "quick":
         groups += every_byte_groups(ctx)
@@ -676,12 +705,12 @@ def api_walk_groups(ctx, plan):
     return groups
 
 
-def lifetime_walk(name, alg, params, plans_cycle, api="bytes", start=0):
+def lifetime_walk(name, alg, params, plans_cycle, api="bytes", start=0, seed=None):
     """complete lifetime with a lifetime query before and after every step, callback plans mixed in, and
     attempts after exhaustion"""
     k = "k1"
     cmds = []
-    kg = cmd_keygen(alg, params, seed_hex(name, alg), out={"sk": "store_k1", "pk": "pk_k1"})
+    kg = cmd_keygen(alg, params, seed or seed_hex(name, alg), out={"sk": "store_k1", "pk": "pk_k1"})
     kg["k"] = k
     if start:
         kg["start_ctr"] = "%016x" % start
@@ -742,6 +771,9 @@ def api_phases(ctx, emphasis):
         groups.append(lifetime_walk("life/%s/h2h5-end" % alg, alg, [(ws[(ai + 2) % 4], 2), (4, 5)], cyc[ai % 4], start=128 - 20))
         groups.append(lifetime_walk("life/%s/h5h2-end" % alg, alg, [(4, 5), (ws[(ai + 1) % 4], 2)], cyc[(ai + 2) % 4], start=128 - 10,
                                     api="mem" if ai % 2 else "bytes"))
+        if not quick or ai == 1:
+            # a seed that happens to be all zero (the wiped key is recognised by its cleared parameter list, not by its seed)
+            groups.append(lifetime_walk("life/%s/zero-seed" % alg, alg, [(4, 2)], cyc[ai % 4], seed="00" * N_OF[alg], api="bytes" if ai % 2 else "mem"))
         if not quick or ai == 0:
             # a total height of 35 (seven H5 levels): the last three one-time keys of a 2^35 lifetime, then refusal
             groups.append(lifetime_walk("life/%s/7xh5-end" % alg, alg, [(2, 5)] * 7, cyc[(ai + 1) % 4], start=(1 << 35) - 3))
@@ -901,7 +933,8 @@ def c12_phases(ctx):
     dig = dict(zip(jobs, res))
     for alg in ALGS:
         n = N_OF[alg]
-        cmds = [{"op": "hook", "hook": "ots_params", "alg": alg, "type": t} for t in (1, 2, 3, 4)]
+        # every type code the table may know (RFC 8554 defines 1..4; whatever else is accepted must obey Appendix B as well)
+        cmds = [{"op": "hook", "hook": "ots_params", "alg": alg, "type": t} for t in range(0, 21)]
         groups.append({"name": "c12/%s/params" % alg, "cmds": cmds, "cost": 0.5})
         for w in (1, 2, 4, 8):
             ds = dig[(n, w)]
@@ -1325,6 +1358,54 @@ def blob_for(alg, params, tag):
     return (bytes(8) + pb + det_bytes("c14/blob/" + tag, N_OF[alg])).hex()
 
 
+_FOREIGN = {}
+
+
+def foreign_triples(ctx):
+    """(message, signature, public key) triples made by the DEFAULT build, for verification by the restricted builds"""
+    if "t" in _FOREIGN:
+        return _FOREIGN["t"]
+    v = Variant()
+    vlib.build_harness(v)
+    sets = [("sha256_n16", [(2, 5)]), ("sha256_n16", [(1, 5)]), ("shake256_n24", [(8, 2)]), ("sha256_n32", [(4, 5)]), ("sha256_n32", [(4, 10)]),
+            ("shake256_n32", [(8, 5), (4, 2)]), ("sha256_n24", [(1, 2), (2, 5)]), ("shake256_n16", [(4, 5), (8, 5), (2, 2)])]
+    d = os.path.join(ctx["workdir"], "foreign")
+    os.makedirs(d, exist_ok=True)
+    scen, trace = os.path.join(d, "scenario.ndjson"), os.path.join(d, "trace.ndjson")
+    with open(scen, "w") as f:
+        for i, (alg, params) in enumerate(sets):
+            f.write(json.dumps(cmd_keygen(alg, params, seed_hex("c14/foreign/%d" % i, alg))) + "\n")
+            f.write(json.dumps(cmd_sign(alg, key_at("sk", 3), msg_hex("c14/foreign/m/%d" % i, 21), out={"sig": "sig"})) + "\n")
+    import subprocess
+    p = subprocess.run([v.binary, scen, trace, str(seed_int())], stdout=subprocess.PIPE, stderr=subprocess.STDOUT, timeout=900)
+    evs = [json.loads(x) for x in open(trace)] if os.path.exists(trace) else []
+    out = []
+    kg = None
+    for e in evs:
+        if e.get("ev") == "keygen":
+            kg = e
+        elif e.get("ev") == "sign" and kg is not None and e.get("res") == "ok" and kg.get("res") == "ok":
+            out.append({"alg": e["alg"], "params": kg["params"], "msg": e["msg"], "sig": e["sig"], "pk": kg["pk"]})
+    if len(out) != len(sets):
+        raise ToolError("could not produce the foreign triples with the default build: " + p.stdout.decode(errors="replace")[-800:])
+    _FOREIGN["t"] = out
+    return out
+
+
+def foreign_group(ctx, levels, heights, ws, name):
+    """signatures the DEFAULT build made, verified by a restricted build: within its limits they verify; beyond its height /
+    Winternitz limits the outcome may be ok or an error, never a crash and never a wrong acceptance"""
+    cmds = []
+    for t in foreign_triples(ctx):
+        if len(t["params"]) > levels:
+            continue
+        inside = all(h <= heights[i] and w >= ws[i] for i, (w, h) in enumerate(t["params"]))
+        meta = {"class": "foreign_signature_within_limits"} if inside else {"class": "foreign_signature_beyond_limits", "relaxed_beyond_limits": True}
+        cmds.append(cmd_verify(t["alg"], t["msg"], t["sig"], t["pk"], meta=meta))
+        cmds.append(cmd_verify(t["alg"], t["msg"] + "00", t["sig"], t["pk"], meta=meta))
+    return {"name": name, "cmds": cmds, "cost": 1.0}
+
+
 def c14_variant_groups(levels, heights, ws, vi, quick):
     """parameter lists inside the limits (full use) and just outside (refusal)"""
     groups = []
@@ -1411,7 +1492,8 @@ def c14_phases(ctx):
     phases = []
     for vi, (levels, heights, ws) in enumerate(configs):
         v = limit_variant(levels, heights, ws)
-        phases.append({"tag": "c14-" + v.name, "variant": v, "groups": c14_variant_groups(levels, heights, ws, vi, quick),
+        phases.append({"tag": "c14-" + v.name, "variant": v,
+                       "groups": c14_variant_groups(levels, heights, ws, vi, quick) + [foreign_group(ctx, levels, heights, ws, "c14/foreign/" + v.name)],
                        "controls": vi == 0,
                        "space": "build %s: lists inside the limits (keygen/sign/verify/lifetime/aux/exhaust) and just outside (one level too many, "
                                 "one height step too tall, one w step too small per level)" % v.name})
@@ -1698,6 +1780,16 @@ def c09_mixed_groups(ctx):
                 cmds.append(cmd_verify(alg, m, slot("s"), slot(pk)))
                 cmds.append(cmd_lifetime(alg, key=key_at(sk, 3 + rnd)))
         groups.append({"name": "c09/mixed/w%d" % w, "cmds": cmds, "cost": 3.0})
+    # eight levels of W1: fine for 16-byte hashes, refused for 32-byte hashes (signature longer than 65535 bytes) - whichever
+    # hash the process saw first
+    for order in (("sha256_n16", "sha256_n32", "shake256_n16", "shake256_n32"), ("shake256_n32", "sha256_n16", "sha256_n32")):
+        cmds = []
+        for alg in order:
+            cmds.append(cmd_keygen(alg, [(1, 2)] * 8, det_bytes("c09/mixed/8w1", 32)[:N_OF[alg]].hex(), out={"sk": "sk8", "pk": "pk8"}))
+            cmds.append({"op": "set", "slot": "s8", "value": ""})
+            cmds.append(cmd_sign(alg, key_at("sk8", 5), "0809", out={"sig": "s8"}, light=True))
+            cmds.append(cmd_lifetime(alg, key=key_at("sk8", 5)))
+        groups.append({"name": "c09/mixed/8xw1/%s" % order[0], "cmds": cmds, "cost": 2.0})
     return groups
 
 
